@@ -231,6 +231,21 @@ def handwritten_corpus(ctx, optsets):
             f'<root {XSI_DECL}><party xsi:type="Company"><name>c</name><e:note xmlns:e="urn:ext">y</e:note><vat>v</vat></party><party><name>m</name></party></root>']
     schema = {"_files": {"main.xsd": main, "lib.xsd": lib}, "name": "no-namespace main schema importing a namespaced one"}
     run_compose_schema(ctx, schema, [{"doc": d, "uniform": True} for d in docs], optsets)
+    # local elements of ONE name with DIFFERENT anonymous types under sibling (and nested) parents: the inner classes are
+    # told apart by where they are declared, with or without unnest_classes
+    def anon(body, attrs=""):
+        return f"<xs:complexType><xs:sequence>{body}</xs:sequence>{attrs}</xs:complexType>"
+    info_a = '<xs:element name="info">' + anon('<xs:element name="name" type="xs:string"/><xs:element name="email" type="xs:string" minOccurs="0"/>') + "</xs:element>"
+    info_b = '<xs:element name="info">' + anon('<xs:element name="code" type="xs:int"/>', '<xs:attribute name="rating" type="xs:decimal" use="required"/>') + "</xs:element>"
+    info_c = '<xs:element name="info">' + anon('<xs:element name="since" type="xs:date"/>' + info_a.replace('minOccurs="0"', "")) + "</xs:element>"
+    twins = ('<xs:schema xmlns:xs="http://www.w3.org/2001/XMLSchema" targetNamespace="urn:tw" xmlns="urn:tw" elementFormDefault="qualified">'
+             '<xs:element name="root">' + anon('<xs:element name="buyer">' + anon(info_a) + '</xs:element><xs:element name="seller">' + anon(info_b)
+                                                + '</xs:element><xs:element name="agent" minOccurs="0">' + anon(info_c) + "</xs:element>") + "</xs:element></xs:schema>")
+    docs = ['<root xmlns="urn:tw"><buyer><info><name>A</name><email>a@b</email></info></buyer><seller><info rating="4.5"><code>42</code></info></seller></root>',
+            '<root xmlns="urn:tw"><buyer><info><name>A</name></info></buyer><seller><info rating="1"><code>7</code></info></seller>'
+            "<agent><info><since>2020-02-29</since><info><name>N</name><email>e</email></info></info></agent></root>"]
+    schema = {"_files": {"main.xsd": twins}, "name": "same-named local elements with different anonymous types"}
+    run_compose_schema(ctx, schema, [{"doc": d, "uniform": True} for d in docs], optsets)
 
 
 def run_compose(ctx):
